@@ -988,6 +988,30 @@ func ruleOnDiskCursors(e *Engine, r *Report) {
 					continue
 				}
 				isParam := func(v ssa.Value) bool { _, ok := stripConv(v).(*ssa.Parameter); return ok }
+				// the cursor becomes the *last* index of the applied run: of the two index parameters
+				// ordered by the fail-stop assertion `first > last`, the one stored is the upper one
+				var upper ssa.Value
+				forEachInstr(w.Fn, func(in ssa.Instruction) {
+					ifi, ok := in.(*ssa.If)
+					if !ok {
+						return
+					}
+					b, ok := ifi.Cond.(*ssa.BinOp)
+					if !ok || !isParam(b.X) || !isParam(b.Y) {
+						return
+					}
+					if !e.blockFailStops(ifi.Block().Succs[0]) {
+						return
+					}
+					switch b.Op {
+					case token.GTR, token.GEQ: // X > Y is fatal: Y is the upper bound
+						upper = stripConv(b.Y)
+					case token.LSS, token.LEQ:
+						upper = stripConv(b.X)
+					}
+				})
+				r.check(upper != nil && stripConv(w.Val) == upper, rule, c+" stores the last index of the applied run", e.ipos(w.Instr),
+					"the upper of the two ordered index parameters", "the on-disk cursor is not set to the last index of the run just applied ("+e.describeValue(w.Val)+"): snapshots advertise an OnDiskIndex below what the state machine holds and a receiver skips or repeats recovery")
 				r.guard(rule, c+" (apply path)", w.Instr,
 					reqCmp("first index > onDiskInitIndex (fail-stop otherwise)", ">", isParam, fieldV(init)),
 					reqCmp("first index > onDiskIndex (fail-stop otherwise)", ">", isParam, fieldV(cur)))
